@@ -43,3 +43,21 @@ Definition c20_writes (cfg : c20_cfg) (st : c20_state) (ws : list (nat * Z * Q))
 Definition c20_strided (cells : list nat) : Prop :=
   let bi := c20_buffer_info cells in
   forall i, i < length cells -> Z.of_nat (nth i cells 0) = (c20_bi_ptr bi + Z.of_nat i * c20_bi_stride bi)%Z.
+
+(* the bound operations that may write to existing storage (everything else is "out of place") *)
+Definition c20_mutating (op : c20_op) : bool :=
+  match op with
+  | C20_Set _ _ _ | C20_SetSlice _ _ _ _ _ | C20_IAdd _ _ | C20_ISub _ _ | C20_IAddL _ _ | C20_ISubL _ _
+  | C20_IMulS _ _ | C20_IDivS _ _ | C20_IAddS _ _ | C20_ISubS _ _ | C20_Assign _ _ | C20_AssignL _ _
+  | C20_NSet _ _ _ | C20_NIMulS _ _ | C20_NIDivS _ _ | C20_NIAddS _ _ | C20_NISubS _ _ => true
+  | _ => false
+  end.
+
+(* the register an in-place operation writes through *)
+Definition c20_target (op : c20_op) : option nat :=
+  match op with
+  | C20_Set r _ _ | C20_SetSlice r _ _ _ _ | C20_IAdd r _ | C20_ISub r _ | C20_IAddL r _ | C20_ISubL r _
+  | C20_IMulS r _ | C20_IDivS r _ | C20_IAddS r _ | C20_ISubS r _ | C20_Assign r _ | C20_AssignL r _
+  | C20_NSet r _ _ | C20_NIMulS r _ | C20_NIDivS r _ | C20_NIAddS r _ | C20_NISubS r _ => Some r
+  | _ => None
+  end.
